@@ -263,7 +263,7 @@ Qed.
 (* ---- encoder: nothing is lost between a Klong value and its JSON tree ---- *)
 Fixpoint json_roundtrip (v : kv) : of_json (to_json v) = Some v.
 Proof.
-  destruct v as [q|s|l|kvs]; simpl; try reflexivity.
+  destruct v as [q|z|b|s|l|kvs]; simpl; try reflexivity.
   - assert (H : (fix go (l : list jv) : option (list kv) :=
                    match l with
                    | [] => Some []
